@@ -130,6 +130,12 @@ class LrParser:
                     f"Error parsing at character {look_ahead}"
                 )
             action = self.action_table[key]
+            if isinstance(action, Accept):
+                # When the start symbol is used recursively, only the
+                # outermost occurrence finishes the parse:
+                n_pop = 2 * len(self.grammar.productions[action.rule].symbols)
+                if len(stack) != n_pop + 1:
+                    action = Reduce(action.rule)
             if isinstance(action, Reduce):
                 f_args = []
                 prod = self.grammar.productions[action.rule]
